@@ -42,7 +42,7 @@ def create_args(root, mode, fmts, first=False):
 
 # ------------------------------------------------------------------ oracle
 
-def check_record(V, hs, per, first_gen, content, number):
+def check_record(V, hs, per, first_gen, content, number, requested=None):
     """the C04 relation for one file record: hs = its hash entries in the new generation, per = earliest recorded digest per
     format before the run, first_gen = first generation that records the path (None: new in this run)"""
     acts = {h["format"]: h["action"] for h in hs}
@@ -73,6 +73,10 @@ def check_record(V, hs, per, first_gen, content, number):
                     V("new-format-not-verified", f"new format {f} has action {h['action']}")
                 elif not old_verified:
                     V("new-format-unvouched", f"new format {f} recorded without a verified entry of a recorded format: {acts}")
+        for f in requested or []:
+            if f in per and f not in acts:   # "a failed check is itself recorded"; a passed one as well
+                V("requested-recorded-format-missing", f"{f} was requested and is recorded for the file (generation {per[f][1]}) but the new "
+                  f"generation has no {f} entry: {acts}", altered=altered)
         if altered and not any_failed:
             V("failed-not-recorded", f"content differs from the first digests but no 'failed' entry: {acts}")
         if not altered and any_failed:
@@ -113,7 +117,7 @@ def judge(pre, post, mode, fmts, res, edits_state):
     if len(recs) != 1:
         V("no-record", f"{len(recs)} records for {rel} in {new[0]['name']}")
         return v
-    check_record(V, recs[0]["hashes"], per, first_gen, content, new[0]["number"])
+    check_record(V, recs[0]["hashes"], per, first_gen, content, new[0]["number"], requested=fmts)
     # the same relation for every other file recorded by this run, in every history it wrote to
     for hr in ref.history_roots(post):
         pg = [(g["number"], ref.read_manifest(g["bytes"])) for g in ref.generations(pre, hr)]
